@@ -320,8 +320,8 @@ class Message(MessageBase):  # add _expired attr
 
         # 1. Look for easy win...
         if self._fraction_expired is not None:
-            if self._fraction_expired == self.CANT_EXPIRE:
-                return False
+            # NOTE: a computed fraction can equal CANT_EXPIRE (e.g. a 3 sec lifespan, tested
+            # at the instant of the pkt), so that sentinel is only trusted when set below
             if self._fraction_expired >= self.HAS_EXPIRED:
                 return True
 
